@@ -115,6 +115,7 @@ def write_step(rng, conn, state):
         if r:
             rid = rng.choice([r[0][0], r[len(r) // 2][0], r[-1][0]])
             conn.execute("UPDATE %s SET %s = ? WHERE rowid = ?" % (t, cols[-1]), ("!pt%d" % rng.randint(0, 99), rid))
+            state["touched_rid"] = rid
             return "update row %d of %s" % (rid, t)
     if k == "thin" and t:
         # delete the tail of what were full leaves: the separators above them stay
@@ -129,7 +130,7 @@ def point_probes(rng, conn):
     """[(description, command, expected rows)]: point lookups through every high level entry point, on every table / index; the
     dump argument is '-' (these are not run through the model: the handle must not be asked for its schema first)"""
     tabs, idx = objects(conn)
-    out = []
+    out, tail_ = [], []
     for t in tabs:
         info = conn.execute("PRAGMA table_info(%s)" % t).fetchall()
         cols = [r[1] for r in info]
@@ -138,9 +139,9 @@ def point_probes(rng, conn):
         picks = sorted(set([ids[0], ids[len(ids) // 2], ids[-1], ids[-1] + 1, ids[len(ids) // 3] + 1] + [rng.choice(ids) for _ in range(2)])) if ids else [1]
         for rid in picks[::-1]:                      # descending: an absent rowid, then smaller present ones
             exp = conn.execute("SELECT %s FROM %s WHERE rowid = ?" % (",".join(cols[::-1]), t), (rid,)).fetchall()
-            out.append(("SelectRowid(%s, %d)" % (t, rid), "hselectrowid - %s %d %s" % (hl.hx(t), rid, cl), exp))
+            tail_.append(("SelectRowid(%s, %d)" % (t, rid), "hselectrowid - %s %d %s" % (hl.hx(t), rid, cl), exp))
             if any(r[5] for r in info) and len([r for r in info if r[5]]) == 1 and [r for r in info if r[5]][0][2].upper() == "INTEGER":
-                out.append(("PKSelect(%s, %d)" % (t, rid), "hpkselect - %s i%d %s" % (hl.hx(t), rid, cl), exp))
+                tail_.append(("PKSelect(%s, %d)" % (t, rid), "hpkselect - %s i%d %s" % (hl.hx(t), rid, cl), exp))
     for iname, t in idx:
         cols = [r[1] for r in conn.execute("PRAGMA table_info(%s)" % t)]
         xi = conn.execute("PRAGMA index_xinfo(%s)" % iname).fetchall()
@@ -155,7 +156,8 @@ def point_probes(rng, conn):
             out.append(("IndexedSelectEq(%s, %s, %r)" % (t, iname, v), "hiselecteq - %s %s %s %s" % (hl.hx(t), hl.hx(iname), kv, hl.names(cols)), exp))
         exp = conn.execute("SELECT %s FROM %s ORDER BY %s COLLATE %s %s, rowid" % (",".join(cols), t, col, coll, "DESC" if desc else "ASC")).fetchall()
         out.append(("IndexedSelect(%s, %s)" % (t, iname), "hiselect - %s %s %s" % (hl.hx(t), hl.hx(iname), hl.names(cols)), exp))
-    return out
+    # the point lookups come last: the last lookup of a round on each table is the one of its first row
+    return out + tail_
 
 
 def run_probes(run, impl, probes, what, hist, when):
@@ -264,6 +266,11 @@ def one_history(run, rng, wd, hid, page_size, steps, rows0, dist, real_file, wit
     conn.execute("CREATE TABLE t(a, b)")
     conn.execute("CREATE TABLE u(k, v)")
     conn.execute("CREATE INDEX t_b ON t(b)")
+    # payloads on both sides of the local-payload limits of every page size a VACUUM may move the file to (table: U-35, index: about U/5)
+    conn.execute("CREATE TABLE o(n, body)")
+    conn.execute("CREATE INDEX o_body ON o(body)")
+    for n, ln in enumerate([60, 90, 110, 200, 240, 400, 470, 490, 600, 900, 980, 1000, 1500, 2000, 2020, 2500, 4000, 4100]):
+        conn.execute("INSERT INTO o VALUES(?, ?)", (n, ("%02d" % n) + "o" * ln))
     conn.execute("CREATE TABLE p(id INTEGER PRIMARY KEY, v, w)")
     conn.execute("CREATE INDEX p_v ON p(v)")
     conn.execute("BEGIN")
@@ -325,6 +332,11 @@ def one_history(run, rng, wd, hid, page_size, steps, rows0, dist, real_file, wit
         kinds_ = ("SelectRowid", "IndexedSelectEq", "PKSelect", "IndexedSelect")
         tt = state.get("touched")
         mine = [p_ for p_ in first if tt and p_[0].split("(")[1].split(",")[0].rstrip(")") == tt]
+        trid = state.pop("touched_rid", None)
+        hit = [p_ for p_ in mine if trid is not None and p_[0] == "SelectRowid(%s, %d)" % (tt, trid)]
+        if hit and s % 2 == 0:
+            first.remove(hit[0]); first.insert(0, hit[0])
+            mine = []
         for off in range(len(kinds_)):
             pref = [p_ for p_ in mine if p_[0].startswith(kinds_[(s + off) % len(kinds_)] + "(")]
             if pref:
